@@ -697,6 +697,9 @@ pub fn parse_cfg_raw_string(
     if layer_exprs.is_empty() {
         bail!("No deflayer expressions exist. At least one layer must be defined.")
     }
+    if layer_exprs.len() >= MAX_LAYERS {
+        bail!("Maximum number of layers ({}) exceeded.", MAX_LAYERS - 1);
+    }
 
     let (layer_idxs, layer_icons) =
         parse_layer_indexes(&layer_exprs, mapping_order.len(), &vars, &mut lsp_hints)?;
